@@ -46,6 +46,103 @@ def _kind_name(e: ast.AST) -> str | None:
     return t.rsplit(".", 1)[1] if t.startswith("AffineBinaryOpKind.") else None
 
 
+OPERATOR_FUNCS = {"operator.add": ast.Add, "operator.mul": ast.Mult, "operator.mod": ast.Mod, "operator.floordiv": ast.FloorDiv, "operator.sub": ast.Sub}
+
+
+def _apply_callable(fn_expr: ast.AST, args: list[ast.AST], module_assigns: dict) -> ast.AST | None:
+    """`operator.add` / a lambda / a module-level lambda name applied to args -> the expression it computes"""
+    import copy
+
+    t = unparse(fn_expr)
+    if t in OPERATOR_FUNCS and len(args) == 2:
+        return ast.BinOp(left=args[0], op=OPERATOR_FUNCS[t](), right=args[1])
+    if isinstance(fn_expr, ast.Name) and isinstance(module_assigns.get(fn_expr.id), ast.Lambda):
+        fn_expr = module_assigns[fn_expr.id]
+    if isinstance(fn_expr, ast.Lambda) and len(fn_expr.args.args) == len(args):
+        sub = {a.arg: v for a, v in zip(fn_expr.args.args, args)}
+
+        class S(ast.NodeTransformer):
+            def visit_Name(self, node: ast.Name):
+                return copy.deepcopy(sub[node.id]) if node.id in sub else node
+
+        return S().visit(copy.deepcopy(fn_expr.body))
+    if isinstance(fn_expr, ast.Attribute) and len(args) >= 1:  # unbound method  AffineExpr.ceil_div
+        return ast.Call(func=ast.Attribute(value=args[0], attr=fn_expr.attr, ctx=ast.Load()), args=list(args[1:]), keywords=[])
+    return None
+
+
+def kind_dispatch(fn: ast.AST, module_assigns: dict, kinds: list[str], key: str = "AffineBinaryOpKind") -> dict[str, list]:
+    """For a function that dispatches on an AffineBinaryOpKind (match on the kind, class patterns with kind=...,
+    if / elif chains, or a lookup in a literal table keyed by the kinds): kind -> list of (returned expression AST or
+    None, path) handled for that kind.  A table lookup `T[k]` / `T[k](a, b)` is specialised per key."""
+    from ..paths import enum_paths, expand_predicates, subst
+
+    out: dict[str, list] = {k: [] for k in kinds}
+    from ..paths import Loop as _Loop
+
+    def with_bodies(ps):
+        res = []
+        for p_ in ps:
+            res.append(p_)
+            for e_ in p_.effects:
+                if isinstance(e_, _Loop):
+                    res.extend(with_bodies(e_.body))
+        return res
+
+    seen_ids: set[int] = set()
+    paths = []
+    for p_ in with_bodies(enum_paths(fn)):
+        if id(p_) not in seen_ids:
+            seen_ids.add(id(p_))
+            paths.append(p_)
+    paths = [p for p in expand_predicates(paths, {}) if p.feasible()]
+    for p in paths:
+        pos: set[str] | None = None
+        neg: set[str] = set()
+        generic = False
+        for t_, pol in p.nfacts():
+            m = re.fullmatch(rf"[\w.]+ (?:==|is) {key}\.(\w+)", t_)
+            if m:
+                if pol:
+                    pos = {m.group(1)} if pos is None else pos & {m.group(1)}
+                else:
+                    neg.add(m.group(1))
+                continue
+            m = re.fullmatch(r".* == '(.*)'", t_)
+            if m and pol:
+                ks = set(re.findall(rf"{key}\.(\w+)", m.group(1)))
+                if ks:
+                    pos = ks if pos is None else pos & ks
+                elif re.fullmatch(r"\w+\(.*\)|_", m.group(1)):
+                    generic = True
+        if pos is None:
+            continue
+        for k in pos - neg:
+            if k in out:
+                rv = None
+                if p.value is not None:
+                    rv = ast.parse(p.rvalue(), mode="eval").body
+                out[k].append((rv, p, generic))
+    # literal table lookups: `return T[x]` / `return T[x](a, b)` / `T[x](...)` statement
+    if not any(out.values()):
+        for p in paths:
+            if p.value is None:
+                continue
+            rv = ast.parse(p.rvalue(), mode="eval").body
+            call_args = None
+            sub = rv
+            if isinstance(rv, ast.Call) and isinstance(rv.func, ast.Subscript):
+                sub, call_args = rv.func, rv.args
+            if isinstance(sub, ast.Subscript) and isinstance(sub.value, ast.Name) and isinstance(module_assigns.get(sub.value.id), ast.Dict):
+                d_ = module_assigns[sub.value.id]
+                for k_, v_ in zip(d_.keys, d_.values):
+                    kn = _kind_name(k_) if k_ is not None else None
+                    if kn in out:
+                        val = v_ if call_args is None else _apply_callable(v_, list(call_args), module_assigns)
+                        out[kn].append((val, p, False))
+    return out
+
+
 def check(idx: Index, rep: Report, tier: str) -> str:
     enum = idx.cls(AE, "AffineBinaryOpKind")
     kinds = [n for n in enum.class_assigns() if n[0].isupper()]
@@ -77,33 +174,39 @@ def check(idx: Index, rep: Report, tier: str) -> str:
             else:
                 r.ok(inst, f"{f.loc} {k} -> {want[k]}")
 
+    def table_by_paths(f, a_: str, b_: str) -> dict[str, str | None]:
+        """kind -> canonical operation of the returned expression, over every dispatch form (kind_dispatch)"""
+        d_ = kind_dispatch(f.node, getattr(f.module, "assigns", {}), list(CANON))
+        tb: dict[str, str | None] = {}
+        for k_, hits in d_.items():
+            ops = {op_of(rv, a_, b_) for rv, _, generic in hits if rv is not None}
+            if len(ops) == 1:
+                tb[k_] = next(iter(ops))
+            elif len(ops) > 1:
+                tb[k_] = "/".join(sorted(str(o) for o in ops))
+        return tb
+
     f = idx.func(AE, "AffineExpr.binary")
-    compare("AffineExpr.binary", f, table_from_match(f.node, "kind", "lhs", "rhs", ret_op), CANON)
+    compare("AffineExpr.binary", f, table_by_paths(f, "lhs", "rhs"), CANON)
 
     f = idx.func(AE, "AffineExpr._try_fold_constant")
-    compare("_try_fold_constant", f, table_from_match(f.node, "kind", "self.value", "other.value", ret_op), CANON)
+    compare("_try_fold_constant", f, table_by_paths(f, "self.value", "other.value"), CANON)
 
     f = idx.func(AE, "AffineExpr.eval")
-    tbl: dict[str, str | None] = {}
-    for n in walk_local(f.node):
-        if isinstance(n, ast.If) and isinstance(n.test, ast.Compare) and unparse(n.test.left) == "self.kind":
-            k = _kind_name(n.test.comparators[0])
-            if k:
-                tbl[k] = ret_op(n.body, "lhs", "rhs")
-    # operands evaluated in order
-    defs = {unparse(s.targets[0]): unparse(s.value) for s in walk_local(f.node) if isinstance(s, ast.Assign)}
-    if defs.get("lhs") != "self.lhs.eval(dims, symbols)" or defs.get("rhs") != "self.rhs.eval(dims, symbols)":
-        r.fail("eval:operands", Finding("C26.R1", f.fq, "operands-swapped", "eval does not evaluate lhs from self.lhs and rhs from self.rhs", f.loc))
+    tbl = table_by_paths(f, "self.lhs.eval(dims, symbols)", "self.rhs.eval(dims, symbols)")
+    if not tbl:
+        tbl = table_by_paths(f, "lhs", "rhs")
+        defs = {unparse(s_.targets[0]): unparse(s_.value) for s_ in walk_local(f.node) if isinstance(s_, ast.Assign)}
+        if tbl and (defs.get("lhs") != "self.lhs.eval(dims, symbols)" or defs.get("rhs") != "self.rhs.eval(dims, symbols)"):
+            r.fail("eval:operands", Finding("C26.R1", f.fq, "operands-swapped", "eval does not evaluate lhs from self.lhs and rhs from self.rhs", f.loc))
     compare("AffineExpr.eval", f, tbl, CANON)
 
     f = idx.func(AE, "AffineBinaryOpKind.get_token")
     tok: dict[str, str | None] = {}
-    for m in [n for n in walk_local(f.node) if isinstance(n, ast.Match)]:
-        for c in m.cases:
-            k = _kind_name(c.pattern.value) if isinstance(c.pattern, ast.MatchValue) else None
-            rets = [s for s in c.body if isinstance(s, ast.Return)]
-            if k and rets and isinstance(rets[0].value, ast.Constant):
-                tok[k] = rets[0].value.value
+    for k_, hits in kind_dispatch(f.node, getattr(f.module, "assigns", {}), list(CANON)).items():
+        vals = {rv.value for rv, _, _ in hits if isinstance(rv, ast.Constant) and isinstance(rv.value, str)}
+        if len(vals) == 1:
+            tok[k_] = next(iter(vals))
     compare("get_token", f, tok, TOKEN)
     # parser: token -> operation, composed with get_token
     g = idx.func(APARSER, "AffineParser._create_binop_expr")
@@ -112,6 +215,18 @@ def check(idx: Index, rep: Report, tier: str) -> str:
         for c in m.cases:
             if isinstance(c.pattern, ast.MatchValue) and isinstance(c.pattern.value, ast.Constant):
                 ptab[c.pattern.value.value] = ret_op(c.body, "lhs", "rhs")
+    if not ptab:
+        # table form: a literal dict keyed by the operator token, the builder (operator.* / lambda / method) in the row
+        gmod = getattr(g.module, "assigns", {})
+        gcls = g.cls.class_assigns() if g.cls is not None else {}
+        for nm_, d_ in list(gmod.items()) + list(gcls.items()):
+            if isinstance(d_, ast.Dict) and d_.keys and all(isinstance(k_, ast.Constant) and isinstance(k_.value, str) for k_ in d_.keys):
+                for k_, v_ in zip(d_.keys, d_.values):
+                    cands = [v_] + (list(v_.args) + [kw.value for kw in v_.keywords] if isinstance(v_, ast.Call) else list(v_.elts) if isinstance(v_, ast.Tuple) else [])
+                    for cnd in cands:
+                        e_ = _apply_callable(cnd, [ast.Name(id="lhs", ctx=ast.Load()), ast.Name(id="rhs", ctx=ast.Load())], gmod)
+                        if e_ is not None and op_of(e_, "lhs", "rhs") is not None:
+                            ptab[k_.value] = op_of(e_, "lhs", "rhs")  # type: ignore[union-attr]
     for k in CANON:
         inst = f"print/parse:{k}"
         t = tok.get(k)
@@ -139,13 +254,20 @@ def check(idx: Index, rep: Report, tier: str) -> str:
     # flattener dispatch
     f = idx.func(AE, "SimpleAffineExprFlattener.simplify")
     vt: dict[str, tuple[str, str | None]] = {}
-    for m in [n for n in walk_local(f.node) if isinstance(n, ast.Match) and unparse(n.subject) == "inner.kind"]:
-        for c in m.cases:
-            k = _kind_name(c.pattern.value) if isinstance(c.pattern, ast.MatchValue) else None
-            cs = [x for x in calls_in(c) if call_attr(x) and call_attr(x).startswith("visit_")]  # type: ignore[union-attr]
-            if k and cs:
-                kw = {q.arg: unparse(q.value) for q in cs[0].keywords}
-                vt[k] = (call_attr(cs[0]), kw.get("is_ceil"))  # type: ignore[assignment]
+    disp = kind_dispatch(f.node, getattr(f.module, "assigns", {}), list(CANON))
+    for k, hits in disp.items():
+        for rv, pth, generic in hits:
+            cs = [(i_, e_.value) for i_, e_ in enumerate(pth.effects) if isinstance(e_, ast.Expr) and isinstance(e_.value, ast.Call) and (call_attr(e_.value) or "").startswith("visit_") and call_attr(e_.value) not in ("visit_constant_expr", "visit_dim_expr", "visit_symbol_expr")]
+            if not cs:
+                continue
+            i_, c0 = cs[0]
+            kw = {q.arg: pth.res(q.value, i_) for q in c0.keywords}
+            ic = kw.get("is_ceil")
+            if ic is not None:
+                m_ = re.fullmatch(r"[\w.]+ (?:==|is) AffineBinaryOpKind\.(\w+)", ic)
+                if m_:
+                    ic = str(m_.group(1) == k)
+            vt[k] = (call_attr(c0), ic)  # type: ignore[assignment]
     for k, want in VISITOR.items():
         inst = f"flattener:{k}"
         if vt.get(k) == want:
@@ -190,6 +312,13 @@ def check(idx: Index, rep: Report, tier: str) -> str:
         raise AnalysisError(f"{f.fq}: expected one column insert and one local_exprs.append")
     idx_txt = unparse(ins[0].args[0])
     n_ins, n_app = cfg.node_of(ins[0]), cfg.node_of(app[0])
+    if isinstance(ins[0].args[0], ast.Name):
+        # the column index was computed into a local: what matters is where that computation is evaluated
+        from ..dataflow import reaching_defs as _rd
+
+        ds_ = [(n_, v_) for n_, v_ in _rd(cfg, ins[0].args[0].id, n_ins) if v_ is not None]
+        if len(ds_) == 1:
+            n_ins, idx_txt = ds_[0][0], unparse(ds_[0][1])
     before = n_app in cfg.reachable(n_ins) and n_ins not in cfg.reachable(n_app)
     good_before = idx_txt in ("self.get_local_var_start_index() + len(self.local_exprs)", "self.get_constant_index()")
     good_after = idx_txt in ("self.get_local_var_start_index() + len(self.local_exprs) - 1", "self.get_constant_index() - 1")
